@@ -218,6 +218,12 @@ def main(argv=None):
 
 
 if __name__ == "__main__":
+    import signal
+
+    try:
+        signal.signal(signal.SIGPIPE, signal.SIG_DFL)
+    except Exception:
+        pass
     try:
         rc = main()
     except SystemExit:
